@@ -457,7 +457,25 @@ def splines(ck, tier):
     C12.akima_clauses(ck, smod, C12.GRIDS[4][1], parsed, TO, found, 'S1 AkimaSpline(n=4, non-uniform grid)')
     g = C12.GRIDS[4][1]; ys = [z3.Real('y%d' % i) for i in range(4)]
     C12.generic_spline_clauses(ck, smod, 'cubic', g, ys, parsed, TO, found, 'S1 CubicSpline natural (n=4, non-uniform grid)', qr_factory=C12.QRContract)
-    # outside the table the value is the extrapolated end polynomial; the derivative must follow it there too
+    # outside the table (below the first and above the last knot, up to two table lengths away) the derivative must still be the
+    # derivative of whatever Calculate returns there (extrapolated end polynomial, or a periodic wrap)
+    from algz import Algebra
+    r = z3.Real('r'); g3 = C12.GRIDS[4][1]; span = g3[-1] - g3[0]
+    for kind, periodic, lab in (('cubic', 0, 'CubicSpline natural'), ('cubic', 1, 'CubicSpline periodic'), ('lin', 0, 'LinSpline')):
+        ys4 = [z3.Real('y%d' % i) for i in range(4)]
+        for side, dom in (('below the first knot', [r < g3[0], r > g3[0] - 2 * span]), ('above the last knot', [r > g3[-1], r < g3[-1] + 2 * span])):
+            try:
+                paths, st = C12.spline_eval(smod, kind, g3, ys4, r, parsed, dom + ([ys4[0] == ys4[3]] if periodic else []), periodic, C12.QRContract() if kind == 'cubic' else None)
+            except symx.Unsupported as e:
+                ck.inconc('S1 %s %s: %s' % (lab, side, str(e)[:120])); continue
+            q = []
+            for pc, (rc, val, der, aux) in paths:
+                A = Algebra()
+                try:
+                    P = A.residual(A.rf(der), A.total_deriv(A.rf(val), 'r')); q.append((A.definitions() + pc, [A.poly_z3(P) != 0]))
+                except Exception as e: ck.inconc('S1 %s %s normal form: %s' % (lab, side, e))
+            ck.add_witness('S1 %s %s: %d path(s)' % (lab, side, len(paths)), len(paths) >= 1)
+            C12.agg_prove(ck, 'S1 %s (n=4): CalculateDerivative(r) = d/dr Calculate(r) %s' % (lab, side), q, TO, found, 'S1 ' + lab)
     for tag, name, mdl in found:
         rep = common.write_replay('C07', name, {}, {'obligation': name, 'model': mdl})
         ck.violation('C07 spline ' + name.split(':')[0][:60], name + ' model=%s' % str(mdl)[:200], rep, reproduced=True)
